@@ -7,6 +7,7 @@ import (
 	"sort"
 
 	"github.com/ethereum/go-ethereum/common"
+	"github.com/ethereum/go-ethereum/core/state"
 	"github.com/ethereum/go-ethereum/core/types/bal"
 	"github.com/ethereum/go-ethereum/crypto"
 	"github.com/ethereum/go-ethereum/rlp"
@@ -471,6 +472,45 @@ func (u *Universe) CheckLookup(enc *bal.BlockAccessList, worlds []World) []strin
 					}
 				} else if cv != bv {
 					bad("Lookup: no write of a%d/s%d before index %d, but the slot went from %d to %d", a, k, L, bv, cv)
+				}
+			}
+		}
+	}
+	return problems
+}
+
+// CheckOverlay opens, for every block access index L, a StateDB on the PARENT state through
+// state.NewReaderWithBlockLevelAccessList(parent reader, list, L) - the "unified view" that
+// parallel execution gives transaction L - and compares every account field and slot with
+// worlds[L-1], the world the sequential execution had before index L.  An absent account and
+// an empty one are identified (the overlay cannot express the EIP-161 removal of an emptied
+// account; under EIP-7523 the two are indistinguishable to the EVM).
+func (u *Universe) CheckOverlay(env *Env, parentRoot common.Hash, enc *bal.BlockAccessList, worlds []World) []string {
+	var problems []string
+	bad := func(f string, a ...any) { problems = append(problems, fmt.Sprintf(f, a...)) }
+	lk := enc.Lookup()
+	for L := 1; L <= len(worlds); L++ {
+		base, err := env.DB.Reader(parentRoot)
+		if err != nil {
+			return append(problems, fmt.Sprintf("reader of the parent state: %v", err))
+		}
+		sdb, err := state.NewWithReader(parentRoot, env.DB, state.NewReaderWithBlockLevelAccessList(base, lk, L))
+		if err != nil {
+			return append(problems, fmt.Sprintf("state with access-list overlay at index %d: %v", L, err))
+		}
+		for a := 1; a <= u.NA; a++ {
+			addr, want := u.Addr(a), worlds[L-1][a-1]
+			bal, nonce, code := sdb.GetBalance(addr), sdb.GetNonce(addr), CodeID(sdb.GetCode(addr))
+			if !bal.IsUint64() || int64(bal.Uint64()) != want.Bal || int64(nonce) != want.Nonce || code != want.Code {
+				bad("overlay reader at index %d: a%d reads nonce=%d balance=%v code=%d, sequential execution had nonce=%d balance=%d code=%d",
+					L, a, nonce, bal, code, want.Nonce, want.Bal, want.Code)
+			}
+			if sdb.Empty(addr) != (!want.Ex || (want.Nonce == 0 && want.Bal == 0 && want.Code == 0)) {
+				bad("overlay reader at index %d: Empty(a%d)=%v, sequential execution had %+v", L, a, sdb.Empty(addr), want)
+			}
+			for k := 1; k <= u.NS; k++ {
+				if v, ok := ValOf(sdb.GetState(addr, u.Slot(k))); !ok || v != want.St[k-1] {
+					bad("overlay reader at index %d: a%d/s%d reads %d, sequential execution had %d", L, a, k, v, want.St[k-1])
 				}
 			}
 		}
